@@ -17,7 +17,8 @@ open Cdi
 /-- F9: every entry point of the cache — the exported methods and the watcher goroutine —
 touches the shared fields only with the cache mutex held, never locks it twice, and
 releases it -/
-theorem F9_accesses_guarded : Generated.accessTable.all (fun e => guarded false e.2) = true := by decide
+theorem F9_accesses_guarded :
+    Generated.accessTable.all (fun e => guarded false (strip e.2) && retOK false e.2) = true := by decide
 
 /-- F9: the table has the entry points the theorems speak about -/
 theorem F9_entry_points :
@@ -89,6 +90,7 @@ theorem inv_step (s s' : St) (i : Nat) (h : Inv s) (hs : step s i = some s') : I
       | unlock => exact absurd rfl hnu
       | read f => simp [guarded] at hi; simpa [hi.1] using hi.2
       | write f => simp [guarded] at hi; simpa [hi.1] using hi.2
+      | ret => simp [guarded] at hi
     · simpa [hji] using hj
 
 theorem inv_run (s : St) (schedule : List Nat) (h : Inv s) : Inv (run s schedule) := by
@@ -146,6 +148,7 @@ theorem C12_critical_sections_atomic (progs : Nat → Prog) (hg : ∀ i, guarded
     | unlock => exact absurd rfl hnu
     | read f => simp [guarded] at hjg
     | write f => simp [guarded] at hjg
+    | ret => simp [guarded] at hjg
 
 /-- **C12 — no deadlock**: in every reachable state in which some thread has work left, some
 thread can take a step -/
